@@ -495,11 +495,13 @@ class Simulator(EventProducer, SimulatorInterface, Generic[TIME]):
         return self._replication_state
 
     def end_replication(self):
-        self._replication_state = ReplicationState.ENDING
-        self.__worker.wakeup()  # just to be sure
+        if self._replication_state != ReplicationState.STARTED:
+            raise DSOLError("cannot end a replication that is not in progress")
         if self._simulator_time < self._replication.end_sim_time:
             print("warning: end_replication called with simtime < runlength")
             self._simulator_time = self._replication.end_sim_time
+        self._replication_state = ReplicationState.ENDING
+        self.__worker.wakeup()  # just to be sure
     
     def set_error_strategy(self, error_strategy: ErrorStrategy,
                            log_level: int=-1):
